@@ -140,6 +140,7 @@ package http1
 //@   props C10
 //@   modifies elapsed
 //@   ghostset after Since#0: elapsed = result
+//@   replay-import time
 //@   replay-go before := time.Now().Add(-600 * time.Millisecond); cl, to := updateReqTimeout(time.Second, 800*time.Millisecond, before); if cl || to > 400*time.Millisecond { fmt.Printf("VCGO-VIOLATED with 600ms of a 1s request timeout spent and an 800ms read timeout configured, updateReqTimeout returns close=%v timeout=%v (at most 400ms are left)\n", cl, to) }
 //@   top-ensures reqTimeout <= 0 ==> !shouldCloseConn && timeout == compareTimeout
 //@   top-ensures reqTimeout > 0 && reqTimeout - elapsed <= 0 ==> shouldCloseConn && timeout == 0
